@@ -173,6 +173,8 @@ def r1(ctx):
     for b, bi, t in sites:
         base = re.sub(r"::\{closure#\d+\}$", "", b.path)
         nm = t["callee"].split("::")[-1]
+        if base in ITER_TABLE and nm not in ITER_TABLE[base][1] and nm in ("iter", "into_iter") and len(ITER_TABLE[base][1]) == 1 and list(ITER_TABLE[base][1])[0] in ("iter", "into_iter"):
+            nm = list(ITER_TABLE[base][1])[0]  # `for x in &map` and `for x in map.iter()` are the same iteration
         if base not in ITER_TABLE or nm not in ITER_TABLE[base][1]:
             yield VIOL("C10-R1", "unreviewed-map-iteration/" + b.path + ":" + nm, "iteration over a hash map (`%s`) at a site not in the reviewed inventory: its order depends on the per-process hash seed" % t["callee"], where=b.span_of_block(bi))
         else:
@@ -199,6 +201,12 @@ def r1(ctx):
     acc = info["acc"]
     sorts = [d for d in b.defs().get(acc, []) if d["kind"] == "mutcall" and re.search(r"slice::<impl \[T\]>::sort(_unstable)?(_by|_by_key|_by_cached_key)?$", d["term"]["callee"])]
     rets = b.return_blocks()
+    # besides push / sort, nothing may change the collected pairs (dedup, retain, truncate, pop, remove .. lose or
+    # reorder parameters: repeated name=value pairs are part of the multiset)
+    other = [d for d in b.defs().get(acc, []) if d["kind"] == "mutcall" and d not in sorts
+             and not re.search(r"Vec::<T, A>::push$|DerefMut::deref_mut$|IntoIterator::into_iter$|Vec::<T, A>::(iter|iter_mut|len|is_empty|as_slice|as_mut_slice|reserve\w*|with_capacity)$|slice::<impl \[T\]>::(iter|len|is_empty)$|Iterator::collect$", d["term"]["callee"])]
+    for d in other:
+        yield VIOL("C10-R1", "canonicalize_query_to_string/pairs-op:" + d["term"]["callee"].split("::")[-1], "the collected (name, value) pairs are modified by `%s`: parameters are dropped, merged or reordered before rendering" % d["term"]["callee"], where=b.span_of_block(d["block"]))
     if info["form"] == "loop":
         pushes = info["pushes"]
         good = [d for d in sorts if all(b.dominates(d["block"], r) for r in rets) and not any(b.reachable(d["block"], pb) for pb, _ in pushes)]
@@ -441,7 +449,8 @@ def r4(ctx):
         return
 
     def idxs(sl):
-        got = {const_value(op_const(t_["args"][1]) or {}) for _, t_ in sl.find_calls(r"ops::Index::index$")}
+        got = {const_value(op_const(t_["args"][1]) or {}) for _, t_ in sl.find_calls(r"ops::Index::index$|slice::<impl \[T\]>::get$")}
+        got = {g for g in got if isinstance(g, int)}  # `parts[1]` and `parts.get(1)` name the same element
         if so:
             # split_once form: `(x as Some).0.0` is the name, `.0.1` the value
             for l_, fs in sl.fieldreads:
